@@ -122,6 +122,11 @@ struct Scenario {
     now0: u64,
     /// upstream is a cache that counts TTLs down (else an authoritative server)
     upstream_ages_ttl: bool,
+    /// Some((lo, hi)): the validator is configured with `positive_validation_ttl(lo..=hi)` and
+    /// `negative_validation_ttl(lo..=hi)` seconds (as the recursor does from its TTL config);
+    /// the bounds steer the validation cache and must never stretch a verdict past its signature
+    #[serde(default)]
+    cache_bounds: Option<(u32, u32)>,
 }
 
 const ZONE_LABELS: &[&[u8]] = &[b"a", b"B", b"zone", b"Ex-1", b"COM", b"x\0y"];
@@ -245,8 +250,12 @@ fn scenario() -> impl Strategy<Value = Scenario> {
         any::<bool>(),
         prop::bool::weighted(0.06),
     );
-    (names, ttls, keys, window(), window(), now0(), any::<bool>(), prop::bool::weighted(0.85)).prop_map(
-        |((zone, owner_rel, foreign_owner, rdatas), (ttl, orig_extra, rrsig_ttl, dnskey_ttl), (signer, signer_flags, ksk, colliders, colliders_first, wildcard), win, kwin, now0, ages, same_kwin)| {
+    let cache_bounds = prop_oneof![
+        3 => Just(None),
+        1 => (prop_oneof![Just(1u32), 2u32..10, Just(60), Just(300), Just(3600)], prop_oneof![Just(0u32), Just(3600), Just(86400)]).prop_map(|(lo, extra)| Some((lo, lo + extra))),
+    ];
+    (names, ttls, keys, window(), window(), now0(), any::<bool>(), prop::bool::weighted(0.85), cache_bounds).prop_map(
+        |((zone, owner_rel, foreign_owner, rdatas), (ttl, orig_extra, rrsig_ttl, dnskey_ttl), (signer, signer_flags, ksk, colliders, colliders_first, wildcard), win, kwin, now0, ages, same_kwin, cache_bounds)| {
             let kwin = if same_kwin { win } else { kwin };
             let wildcard = wildcard && !owner_rel.is_empty() && foreign_owner.is_none();
             // a KSK equal to the signer makes no sense
@@ -272,6 +281,7 @@ fn scenario() -> impl Strategy<Value = Scenario> {
                 kexp_off: kwin.1,
                 now0,
                 upstream_ages_ttl: ages,
+                cache_bounds,
             }
         },
     )
@@ -445,6 +455,9 @@ enum Edit {
     RecTtl(usize, u32),
     RecRdataBit(usize, usize),
     RecAdd(u8),
+    /// add a record of another class (3 = CH, 4 = HS, 254, 255) with the owner and type of the
+    /// RRset somewhere behind its first member: fresh RDATA, or (`true`) a copy of a member
+    RecAddClass(u8, u16, bool),
     RecRemove(usize),
     RecDup(usize),
     RecReverse,
@@ -511,6 +524,7 @@ fn target_edit() -> impl Strategy<Value = Edit> {
         2 => (u(), prop_oneof![0u32..100, any::<u32>()]).prop_map(|(i, t)| Edit::RecTtl(i, t)),
         6 => (u(), u()).prop_map(|(i, b)| Edit::RecRdataBit(i, b)),
         2 => any::<u8>().prop_map(Edit::RecAdd),
+        2 => (any::<u8>(), prop::sample::select(vec![3u16, 4, 254, 255]), any::<bool>()).prop_map(|(x, c, copy)| Edit::RecAddClass(x, c, copy)),
         2 => u().prop_map(Edit::RecRemove),
         1 => u().prop_map(Edit::RecDup),
         1 => Just(Edit::RecReverse),
@@ -633,6 +647,21 @@ fn apply(g: &Genuine, e: &Edit) -> Served {
             .raw();
             t.insert(n, r);
         }
+        Edit::RecAddClass(x, class, copy) => {
+            let mut r = t[*x as usize % n].clone();
+            if !*copy {
+                r.rdata = match r.rtype {
+                    w::T_A => MRdata::A(vec![203, 0, 113, *x]),
+                    w::T_AAAA => MRdata::Aaaa(vec![*x; 16]),
+                    w::T_TXT => MRdata::Txt(vec![vec![b'c', *x]]),
+                    w::T_NS => MRdata::Ns(MName::fq(vec![b"otherclass".to_vec()])),
+                    _ => MRdata::Mx { pref: *x as u16, exchange: MName::fq(vec![b"otherclass".to_vec()]) },
+                }
+                .raw();
+            }
+            r.class = *class;
+            t.insert(1 + (*x as usize / 7) % n, r);
+        }
         Edit::RecRemove(i) => {
             t.remove(i % n);
         }
@@ -753,6 +782,7 @@ fn edit_family(e: &Edit) -> &'static str {
         Edit::RecClass(..) | Edit::RecType(..) => "edit:record-class/type",
         Edit::RecRdataBit(..) => "edit:rdata-bit",
         Edit::RecAdd(_) | Edit::RecRemove(_) | Edit::RecDup(_) => "edit:add/remove/duplicate-rr",
+        Edit::RecAddClass(..) => "edit:add-rr-of-other-class",
         Edit::SigTypeCovered(_) | Edit::SigAlg(_) | Edit::SigLabels(_) | Edit::SigOrigTtl(_) | Edit::SigKeyTag(_) | Edit::SigSignerOctet(..) | Edit::SigClass(_) => "edit:rrsig-field",
         Edit::SigExpiration(_) | Edit::SigInception(_) => "edit:rrsig-times",
         Edit::SigBit(_) | Edit::SigTruncate(_) | Edit::SigExtend(_) => "edit:signature-octets",
@@ -989,7 +1019,12 @@ fn run(c: &Case, rec: &mut Rec) -> CaseResult {
     })));
     let mut anchors = TrustAnchors::empty();
     anchors.insert(&PublicKeyBuf::new(g.anchor.key.clone(), Algorithm::from_u8(g.anchor.alg)));
-    let handle = DnssecDnsHandle::with_trust_anchor(up.clone(), Arc::new(anchors));
+    let mut handle = DnssecDnsHandle::with_trust_anchor(up.clone(), Arc::new(anchors));
+    if let Some((lo, hi)) = s.cache_bounds {
+        rec.class("validator:validation-cache-ttl-bounds-configured");
+        let range = Duration::from_secs(lo as u64)..=Duration::from_secs(hi as u64);
+        handle = handle.positive_validation_ttl(range.clone()).negative_validation_ttl(range);
+    }
     let query = Query::new(g.owner.to_name(), RecordType::from(g.rtype));
 
     // what hickory can be expected to complete: genuine data, usable key, and a key layout its
@@ -1319,6 +1354,7 @@ fn fixed_scenarios() -> Vec<Scenario> {
         kexp_off: 1000,
         now0: 1_700_000_000,
         upstream_ages_ttl: false,
+        cache_bounds: None,
     };
     vec![
         base.clone(),
